@@ -419,11 +419,16 @@ NoOversizeBody(s) == s.overbody = 0
 (* ======================================================================= *)
 
 \* ("dotunder" / "dotundernested": names beginning with "._" at the top and below a directory: plain chart files)
-PathClasses    == {"top", "nested", "unicode", "dotfile", "tpldot", "chartsentry", "dotunder", "dotundernested"}
-ContentClasses == {"empty", "text", "binary", "bom", "crlf"}
+\* ("template": an ordinary file under templates/; "dotdotname": a name with consecutive dots that are NOT a path
+\*  element, e.g. templates/v1..v2-migration.yaml, docs/changes-1.0..2.0.md - valid names)
+PathClasses    == {"top", "nested", "unicode", "dotfile", "tpldot", "chartsentry", "dotunder", "dotundernested",
+                   "template", "dotdotname"}
+\* ("bom": text behind a UTF-8 BOM; "bombinary": bytes that are NOT valid UTF-8 behind EF BB BF; "binary": without)
+ContentClasses == {"empty", "text", "binary", "bom", "bombinary", "crlf"}
 DepShapes      == {"none", "dir", "tgz", "dirdir", "dirtgz", "tgzdir", "tgztgz", "dirandtgz"}
 ValueClasses   == {"none", "text", "bom", "crlf", "multidoc"}
-LockClasses    == {"none", "native"}
+\* lock shapes: complete; without digest; without generated time; with an empty dependency list
+LockClasses    == {"none", "native", "nodigest", "nogenerated", "emptydeps"}
 MetaClasses    == {"min", "full"}
 NameClasses    == {"ok", "empty", "slash", "dotdotslash"}
 VersionClasses == {"ok", "empty", "garbage"}
